@@ -39,6 +39,7 @@ func C17(r *core.Run) {
 	requiredPropagation(r)
 	entityPartOwnAnnotation(r) // Keys is the one schema annotated as the keys part
 	statusNamesAsDeclared(r)
+	noSharedMessages(r) // what is generated for one entity is not written to by the expansion of another
 	// what is generated for one declared command service / event / summary does not depend on the one before it
 	iterationIndependence(r, walkRel, "entity.go", "topic.go", "file.go", "service.go")
 }
